@@ -64,7 +64,16 @@ fn probe(sc: &Value) -> Value {
             let c = c.as_u64().unwrap_or(1) as usize;
             let sh = Arc::new(Shared { entered: Mutex::new(vec![]), finished: AtomicUsize::new(0), dropped: AtomicBool::new(false), outcomes: Mutex::new(vec![]) });
             let (tx, rx) = channel::<String>();
-            let q = QueuingMetricSink::with_capacity(GatedSink { sh: sh.clone(), gate: Mutex::new(rx) }, c);
+            let mut b = QueuingMetricSink::builder();
+            for step in sc["builder_order"].as_str().unwrap_or("ch").chars() {
+                if step == 'c' {
+                    b = b.with_capacity(c);
+                }
+                if step == 'h' && sc["handler"].as_bool() == Some(true) {
+                    b = b.with_error_handler(|_e: io::Error| {});
+                }
+            }
+            let q = b.build(GatedSink { sh: sh.clone(), gate: Mutex::new(rx) });
             let _ = q.emit("first:1|c");
             let _ = wait_until(|| sh.entered.lock().unwrap().len() >= 1, 1500);
             // the worker now sits in the wrapped sink: the queue itself is empty and must take exactly `c` more
@@ -193,12 +202,17 @@ pub fn replay(sc: &Value) -> Value {
     let sink = GatedSink { sh: sh.clone(), gate: Mutex::new(rx) };
     let handled: Arc<Mutex<Vec<String>>> = Arc::new(Mutex::new(vec![]));
     let mut b = QueuingMetricSink::builder();
-    if let Some(c) = sc["capacity"].as_u64() {
-        b = b.with_capacity(c as usize);
-    }
-    if sc["handler"].as_bool() == Some(true) {
-        let h = handled.clone();
-        b = b.with_error_handler(move |e: io::Error| h.lock().unwrap().push(e.to_string()));
+    let order = sc["builder_order"].as_str().unwrap_or("ch").to_string();
+    for step in order.chars() {
+        if step == 'c' {
+            if let Some(c) = sc["capacity"].as_u64() {
+                b = b.with_capacity(c as usize);
+            }
+        }
+        if step == 'h' && sc["handler"].as_bool() == Some(true) {
+            let h = handled.clone();
+            b = b.with_error_handler(move |e: io::Error| h.lock().unwrap().push(e.to_string()));
+        }
     }
     let mut handles: Vec<QueuingMetricSink> = vec![b.build(sink)];
     let mut accepted: Vec<String> = vec![];
@@ -206,6 +220,7 @@ pub fn replay(sc: &Value) -> Value {
     let mut nemit = 0;
     let mut viol: Vec<Value> = vec![];
     let mut scripted_outcomes: Vec<String> = vec![];
+    let marker_pending = false;
     let steps = sc["steps"].as_array().cloned().unwrap_or_default();
     for st in steps.iter() {
         match st["do"].as_str().unwrap_or("") {
@@ -215,8 +230,22 @@ pub fn replay(sc: &Value) -> Value {
                 }
                 let m = st["text"].as_str().map(|x| x.to_string()).unwrap_or_else(|| format!("m{}:1|c", nemit));
                 nemit += 1;
+                // with a gated sink the worker is either inside the wrapped sink or idle on an empty queue, so the
+                // number of queued entries is known: accepted - taken
+                std::thread::sleep(Duration::from_millis(15));
+                let taken_seen = sh.entered.lock().unwrap().len();              // a lower bound of what the worker took
+                let max_taken = (scripted_outcomes.len() + 1).min(accepted.len()); // it cannot get past the gate without a token
+                let max_occ = accepted.len().saturating_sub(taken_seen);
+                let min_occ = accepted.len().saturating_sub(max_taken.max(taken_seen));
+                let cap = sc["capacity"].as_u64().map(|c| c as usize);
+                let must_accept = cap.map(|c| max_occ < c).unwrap_or(true);
+                let must_refuse = cap.map(|c| min_occ >= c).unwrap_or(false);
                 let t = Instant::now();
                 let r = handles[0].emit(&m);
+                if ((r.is_ok() && must_refuse) || (r.is_err() && must_accept)) && !marker_pending {
+                    viol.push(json!({"prop": "C10", "clause": "result-depends-on-room-only", "detail": format!(
+                        "emit of {:?} returned {:?} although the queue held between {} and {} of {:?} entries", m, r.as_ref().map_err(|e| e.to_string()), min_occ, max_occ, sc["capacity"])}));
+                }
                 if t.elapsed() > Duration::from_millis(1500) {
                     viol.push(json!({"prop": "C10", "clause": "emit-never-blocks", "detail": format!("emit of {} took {:?}", m, t.elapsed())}));
                 }
